@@ -76,6 +76,7 @@ class TlcResult:
         self.distinct = 0
         self.depth = 0
         self.coverage = {}
+        self.cov_distinct = {}
         self.ok = False
         self.violated = None
         self.log = ""
@@ -100,6 +101,7 @@ def parse_tlc(text, res):
     for m in COV_RE.finditer(text):
         name = m.group(1)
         res.coverage[name] = res.coverage.get(name, 0) + int(m.group(4))
+        res.cov_distinct[name] = res.cov_distinct.get(name, 0) + int(m.group(3))
     res.ok = "Model checking completed. No error has been found." in text or \
              "Finished in" in text and "Error:" not in text and "is violated" not in text
     m = re.search(r"Invariant (\w+) is violated|Action property (\w+) is violated|property (\w+) is violated", text)
@@ -387,7 +389,7 @@ def drive_and_validate(ev, layer, n, length, module, cfg, extra_args=()):
         os.remove(tr)
 
 
-def mc_and_replay(ev, module, cfg, layer, timeout, required_actions, emit=("Emit",)):
+def mc_and_replay(ev, module, cfg, layer, timeout, required_actions, emit=("Emit",), emitting=None):
     name = os.path.basename(cfg)[:-4]
     c = emit_cfg(cfg, name + "_emit.cfg", emit)
     res, rep = run_tlc(module, c, timeout, f"{ev.pid}-{name}", pipe_to=[MTV, "replay", layer, "-"])
@@ -395,8 +397,9 @@ def mc_and_replay(ev, module, cfg, layer, timeout, required_actions, emit=("Emit
     if res.violated:
         spec_violation(ev, name, res)
     ev.add_report(name + ":replay", rep)
-    if rep["scripts"] < res.distinct and not res.violated:
-        raise ToolError(f"only {rep['scripts']} of {res.distinct} emitted states reached the harness")
+    expected = res.distinct if emitting is None else sum(res.cov_distinct.get(a, 0) for a in emitting)
+    if rep["scripts"] < expected and not res.violated:
+        raise ToolError(f"only {rep['scripts']} of {expected} emitted states reached the harness")
     return res, rep
 
 
@@ -430,11 +433,32 @@ def check_C07(tier, ev):
     drive_and_validate(ev, "prefixed", n, ln, "trace/Trace_Prefixed.tla", "trace/Trace_Prefixed.cfg")
 
 
-CHECKS = {"C06": check_C06, "C07": check_C07}
+def check_C09(tier, ev):
+    ev.rule = ("TLC enumerates, from every reachable balance table (3-4 accounts, 2 denominations, supply <= Cap), every "
+               "mint/send/burn with every coin list of the menu (length <= 2 over amounts {0,1,2} plus three-coin lists with "
+               "repeated denominations and zeros; self-transfers and never-funded recipients included); every (operation, "
+               "resulting state) is replayed on a real App (BankSudo::Mint, BankMsg::Send via execute and send_tokens, "
+               "BankMsg::Burn) with amounts scaled by a per-script unit in {1, 1e6, 1e18, (2^128-1)/Cap}; Ok/Err of every "
+               "operation and Balance/AllBalances/Supply of every account and denomination are compared with TLC's state. "
+               "Non-trivial = last operation fails, is a self-transfer, or carries zero/repeated-denomination coins.")
+    ev.assumptions += ["amounts are linear: scaling by a unit preserves every comparison and sum the bank makes",
+                       "contract-initiated transfers are covered by the Chain specification (C01/C05), not here",
+                       "exhaustive over the coin-list menu from every reachable table within Cap; random histories beyond"]
+    cfgs = ["mc/MC_Bank_quick.cfg"] if tier == "quick" else ["mc/MC_Bank_quick.cfg", "mc/MC_Bank_thorough.cfg"]
+    for cfg in cfgs:
+        mc_and_replay(ev, "mc/MC_Bank.tla", cfg, "bank", 3000, ["Mint", "Send", "Burn", "Settle"],
+                      emitting=["Mint", "Send", "Burn"])
+    ev.exhaustive = True
+    n, ln = (20, 150) if tier == "quick" else (300, 400)
+    drive_and_validate(ev, "bank", n, ln, "trace/Trace_Bank.tla", "trace/Trace_Bank.cfg")
 
-REPLAY_LAYER = {"C06": "overlay", "C07": "prefixed"}
+
+CHECKS = {"C06": check_C06, "C07": check_C07, "C09": check_C09}
+
+REPLAY_LAYER = {"C06": "overlay", "C07": "prefixed", "C09": "bank"}
 TRACE_SPEC = {"C06": ("trace/Trace_Overlay.tla", "trace/Trace_Overlay.cfg"),
-              "C07": ("trace/Trace_Prefixed.tla", "trace/Trace_Prefixed.cfg")}
+              "C07": ("trace/Trace_Prefixed.tla", "trace/Trace_Prefixed.cfg"),
+              "C09": ("trace/Trace_Bank.tla", "trace/Trace_Bank.cfg")}
 
 
 def main():
